@@ -5,6 +5,9 @@ use crate::macgen::*;
 use crate::util::*;
 
 pub fn eval(op: &str) -> String {
+    if op.split_whitespace().nth(1) == Some("nbdev") {
+        return crate::adevgen::eval_nb(op, crate::adevgen::oracle_c04_dev);
+    }
     if op.split_whitespace().nth(1) == Some("adev") {
         return crate::adevgen::eval(op, crate::adevgen::oracle_c04_dev);
     }
@@ -108,6 +111,10 @@ pub fn run(tier: &str, seed: u64, dir: &str) {
         for _ in 0..(if thorough { 800 } else { 60 }) {
             let op = crate::adevgen::gen_random_dev_history("C04", region, &mut rng);
             sink.case(&op, &eval(&op), "device-random", true);
+        }
+        for _ in 0..(if thorough { 800 } else { 60 }) {
+            let op = crate::adevgen::gen_nb_random_history("C04", region, &mut rng);
+            sink.case(&op, &eval(&op), "nb-random", true);
         }
         for i in 0..(if thorough { 400 } else { 30 }) {
             let op = crate::adevgen::gen_join_history("C04", region, &mut rng, i % 2 == 0);
